@@ -17,7 +17,7 @@ func init() {
 		Explanation: "Decides the update/removal mechanism, not the semantic equivalence of two configurations: R1 the directives that take a list of ids or ranges process the whole list (inside the list loop only failures return); " +
 			"R2 no update is applied to a copy: a rule (or range, or target) copied out of its container is neither handed by address to updating code nor modified and dropped without being written back (copy-loss analysis over every module function); " +
 			"R3 the removal helpers are nil-safe (C07.R3) and order preserving (C01.R5); R4 run-time exclusions: the per-transaction lists are reset for every transaction, written only by the Transaction helpers, consulted before each rule (C08.R4), keyed by the parent id for chain members, and ctl handlers visit every rule of the group; " +
-			"R5 removal predicates: DeleteByRange and the run-time range test are inclusive at both ends, DeleteByTag/ByMsg keep exactly the non-matching rules, ClearDisruptiveActions filters by the disruptive type only, and target exceptions are attached to every occurrence of the variable.",
+			"R5 removal predicates: DeleteByRange and the run-time range test are inclusive at both ends, DeleteByTag/ByMsg keep exactly the non-matching rules, ClearDisruptiveActions filters by the disruptive type only, and target exceptions are attached to every occurrence of the variable; R6 the mutators of the rule container agree on the state they maintain (every function that changes RuleGroup.rules writes the same set of RuleGroup fields, so an index or cache over the rules cannot be kept current by some removal paths and forgotten by others), and the helper used by action updates (ClearDisruptiveActions) writes nothing but the action list (status, metadata and transformations of the rule survive an update).",
 		NotDecided: []string{
 			"semantic equivalence of the updated and the rewritten configuration over all requests",
 			"parsing of the id/range/target syntax itself (C16)",
@@ -209,6 +209,9 @@ func runC17(c *an.Ctx) {
 		c.Check(okIncl, "R4", "ctl:ruleRemoveTargetById range is inclusive", ev.Pos(), "start <= id <= end", "the id range test of ctl:ruleRemoveTargetById is not start <= id <= end")
 	}
 
+	// ---- R6 mutators keep to their state
+	c17WriteSets(c)
+
 	// ---- R5 removal predicates
 	if dr := c.Fn("R5", "internal/corazawaf.(*RuleGroup).DeleteByRange"); dr != nil {
 		got := keepConditions(dr)
@@ -279,4 +282,55 @@ func keepConditions(fn *ssa.Function) []string {
 	}
 	sort.Strings(out)
 	return out
+}
+
+// c17WriteSets: sibling agreement of the RuleGroup mutators and the frozen effect of ClearDisruptiveActions.
+func c17WriteSets(c *an.Ctx) {
+	type ws struct {
+		fn  *ssa.Function
+		set []string
+	}
+	var muts []ws
+	for _, fn := range methodsOf(c, "internal/corazawaf", "RuleGroup") {
+		set := receiverWriteSet(fn)
+		for _, f := range set {
+			if f == "rules" {
+				muts = append(muts, ws{fn, set})
+			}
+		}
+	}
+	c.MinCount("R6", "functions changing RuleGroup.rules", len(muts), 5)
+	// the union of what the mutators write besides the rule list is the derived state
+	derived := map[string][]string{}
+	for _, m := range muts {
+		for _, f := range m.set {
+			if f != "rules" {
+				derived[f] = append(derived[f], m.fn.Name())
+			}
+		}
+	}
+	for _, m := range muts {
+		c.FuncsAnalysed[m.fn] = true
+		var missing []string
+		for f, by := range derived {
+			has := false
+			for _, x := range m.set {
+				if x == f {
+					has = true
+				}
+			}
+			if !has {
+				missing = append(missing, f+" (maintained by "+strings.Join(by, ", ")+")")
+			}
+		}
+		sort.Strings(missing)
+		c.Check(len(missing) == 0, "R6", "RuleGroup."+m.fn.Name()+" maintains the same state as the other rule-list mutators", m.fn.Pos(),
+			"writes "+strings.Join(m.set, ", "),
+			"this function changes the rule list but does not update "+strings.Join(missing, "; ")+": after it ran, the derived state describes rules that are gone (or lacks ones that exist), e.g. a removed rule id stays 'in use'")
+	}
+	if cd := c.Fn("R6", "internal/corazawaf.(*Rule).ClearDisruptiveActions"); cd != nil {
+		set := receiverWriteSet(cd)
+		c.Check(len(set) == 1 && set[0] == "actions", "R6", "ClearDisruptiveActions writes only the action list", cd.Pos(), "writes "+strings.Join(set, ", "),
+			"ClearDisruptiveActions writes "+strings.Join(set, ", ")+": an action update also changes other properties of the rule (e.g. its status), unlike the same rule written with the new actions")
+	}
 }
